@@ -256,6 +256,58 @@ func TestEnumWKBHeaders(t *testing.T) {
 		}
 		stats.Subspace("WKB level 3: {multi-polygon, collection} x count {1,2} > order {0,1} x {polygon, multi-line, multi-polygon, collection} x 8 counts > (ring count | order {0,1} x {point, line, polygon, collection} x 8 counts) x every truncation point", e.size-l1-l2, true)
 	}
+
+	// wrap-around counts: c = ceil(k*2^32/s) (and c-1, c+1) for per-element sizes s, k = 1..s-1:
+	// c*s computed in 32 bits wraps to a value < s, so a guard or cap that compares len(data)
+	// with count*size lets the count through. Every case carries >= 96 bytes after the count, as
+	// well-formed WKB points (what a multi-point expects) or as raw coordinates, so that the
+	// wrapped product "fits"; each buffer is also cut to the count + 21 bytes.
+	before := e.size
+	sizes := quickWrapSizes
+	if full {
+		sizes = allWrapSizes()
+	}
+	wc := wrapCounts(sizes)
+	payloads := func(le bool) [][]byte {
+		return [][]byte{wkbPointPayload(le, 5), bytes.Repeat(wkbTail, 3)}
+	}
+	wrapCase := func(prefix []byte, le bool, how string) {
+		for _, pl := range payloads(le) {
+			buf := append(append([]byte(nil), prefix...), pl...)
+			e.do(buf, how)
+			e.do(buf[:len(prefix)+21], how+"-cut")
+		}
+	}
+	put := func(le bool, v uint32) []byte {
+		b := make([]byte, 4)
+		if le {
+			binary.LittleEndian.PutUint32(b, v)
+		} else {
+			binary.BigEndian.PutUint32(b, v)
+		}
+		return b
+	}
+	one := uint32(1)
+	for _, bo := range []byte{0, 1} {
+		le := bo == 1
+		for _, c := range wc {
+			c := c
+			// level 1: every countable type, plain and EWKB
+			for _, typ := range []uint32{2, 3, 4, 5, 6, 7} {
+				wrapCase(hdr(bo, typ, &c), le, "wrap-L1")
+				wrapCase(hdr(bo, typ|0x20000000, &c), le, "wrap-L1")
+			}
+			// level 2: the count one level down
+			wrapCase(append(hdr(bo, 3, &one), put(le, c)...), le, "wrap-L2-ring")
+			wrapCase(append(hdr(bo, 5, &one), hdr(bo, 2, &c)...), le, "wrap-L2")
+			wrapCase(append(hdr(bo, 6, &one), hdr(bo, 3, &c)...), le, "wrap-L2")
+			wrapCase(append(append(hdr(bo, 6, &one), hdr(bo, 3, &one)...), put(le, c)...), le, "wrap-L3-ring")
+			for _, ityp := range []uint32{2, 3, 4, 5, 6, 7} {
+				wrapCase(append(hdr(bo, 7, &one), hdr(bo, ityp, &c)...), le, "wrap-L2")
+			}
+		}
+	}
+	stats.Subspace(fmt.Sprintf("WKB wrap-around counts: %d counts c = ceil(k*2^32/s)+{-1,0,1} for %d element sizes s (k = 1..s-1) x order {0,1} x (12 level-1 headers + 10 nested positions) x payload {5 WKB points, 96 bytes of coordinates} x {full, cut to 21 bytes}", len(wc), len(sizes)), e.size-before, true)
 }
 
 // ---------------------------------------------------------------- WKT sentences
@@ -396,6 +448,12 @@ func witnesses() []witness {
 		{"wkb", unhex("01 03000000 01000000 00000010"), "fixed:wkb-count-times-16-wraps polygon ring"},
 		{"wkb", unhex("01 02000020 e6100000 00000010"), "fixed:wkb-count-times-16-wraps ewkb"},
 		{"wkb", unhex("01 02000000 01000010 0000000000000000 0000000000000000"), "count 2^28+1 with one point"},
+		// seeded change C05a/C05c: 204522253*21 = 2^32+17 (a multi-point whose count x 21 wraps in uint32)
+		{"wkb", unhex("01 04000000 0dc3300c 01 01000000 000000000000f83f 00000000000004c0"), "wrap-around count 204522253 x 21 = 2^32+17, multi-point LE, 30 bytes"},
+		{"wkb", unhex("00 00000004 0c30c30d 00 00000001 3ff8000000000000 c004000000000000"), "wrap-around count 204522253 x 21 = 2^32+17, multi-point BE, 30 bytes"},
+		{"wkb", append(unhex("01 04000000 0dc3300c"), wkbPointPayload(true, 5)...), "wrap-around count 204522253, multi-point with 5 points"},
+		{"wkb", append(unhex("01 02000000 01000010"), bytes.Repeat(wkbTail, 3)...), "count 2^28+1 (x16 wraps to 16), line string with 6 points"},
+		{"wkb", append(unhex("01 05000000 1dc7711c"), append(wkbHeader(true, 2, 0), wkbHeader(true, 2, 0)...)...), "wrap-around count ceil(2^32/9) for 9-byte members, multi-line"},
 		// fixed: mvt-gzip-check-one-byte
 		{"mvt", []byte{0x1f}, "fixed:mvt-gzip-check-one-byte"},
 		{"mvt", []byte{0x1f, 0x8b}, "gzip magic only"},
